@@ -178,5 +178,17 @@ CHECKS = {
              "contiguous labels, append-counters). The dynamic observable (IndexError under NUMBA_BOUNDSCHECK) is replaced by these obligations.",
         technique="static analysis: symbolic shape inference + affine bound proofs without a solver, CFG must-pass-through for output writes",
     ),
+    "C02": dict(
+        category=OTHER,
+        text="(1) mask descriptor of the seven kernels and the driver: the zero set of the validity weight is exactly the declared predicate, over the whole series, in "
+             "either dialect; (2) R-MASK: each of the 22+ solver calls passes a weight whose every reaching definition has the mask as a factor; (3) R-TAINT: forward "
+             "abstract interpretation over the lattice Clean < AtMasked(P) < AtMasked(N) < Spread(P) < Spread(N) with a mask flag (mask x AtMasked(P) is clean, 0 x NaN "
+             "is not, reductions spread, mask-derived selections and validity guards sanitise, ws2d summarised by its products w[i]*y[i]): no Spread taint reaches the "
+             "output series or the reported lambda of any kernel/helper/driver - the static form of `the result is the same whatever placeholder marks the missing "
+             "cells`; (4) every solve is dominated by the minimum-valid-count guard and the other arm passes the input through with lambda 0.",
+        note="Trusted: the transfer functions of sa/taint.py; the ws2d summary (C01). The clause that the output at missing cells is the gap-filled curve value is a consequence, "
+             "not separately decided; nothing numerical is decided.",
+        technique="static analysis: taint/influence abstract interpretation to a fixpoint, def-use factor resolution, block descriptors",
+    ),
 }
 NOT_APPLICABLE = {}
